@@ -65,6 +65,30 @@ Section Bsgs.
   Definition bsgs_dlog (fuel : nat) (b : bsgs) (v : G) : N :=
     match discrete_log fuel b v with DlFound x => x | _ => 0 end.
 
+  (** [Serial] / [Deserial] at the level of entries: [serial] writes m, the giant-step point and the
+      (key, value) pairs in the iteration order of the map (here: list order; the proof does not depend
+      on it); [deserial] reads m and the point, then EXACTLY m pairs ([for _ in 0..m]), failing on a
+      short stream and on a duplicate key ([table.insert(k, v).is_some()] => bail).  The preallocation
+      [HashMap::with_capacity(min(1 << 16, m))] is a capacity hint only and does not appear. *)
+  Definition bsgs_serial (b : bsgs) : N * G * list (G * N) := (bs_m b, bs_inverse_point b, bs_table b).
+  Fixpoint read_entries (n : nat) (stream acc : list (G * N)) : option (list (G * N)) :=
+    match n with
+    | O => Some (rev acc)
+    | S n' =>
+        match stream with
+        | [] => None
+        | (p, j) :: rest =>
+            if existsb (fun q => geqb (fst q) p) acc then None
+            else read_entries n' rest ((p, j) :: acc)
+        end
+    end.
+  Definition bsgs_deserial (s : N * G * list (G * N)) : option bsgs :=
+    let '(m, inv, stream) := s in
+    match read_entries (N.to_nat m) stream [] with
+    | Some t => Some (mkBsgs t inv m)
+    | None => None
+    end.
+
   (** n-fold multiple by repeated addition *)
   Definition nmul (n : N) (a : G) : G := N.iter n (fun c => gadd c a) gzero.
 End Bsgs.
